@@ -1,6 +1,7 @@
 package e1
 
 import (
+	"path"
 	"fmt"
 	"sort"
 	"strings"
@@ -118,7 +119,7 @@ func OpRemoveFile(r *rng.R, e *Env) string {
 	f := rng.Pick(r, ownedFiles(e.Spec, t))
 	explicit := false
 	for _, in := range t.Inputs {
-		if pre(t)+in == f {
+		if path.Clean(pre(t)+in) == f {
 			explicit = true
 		}
 	}
@@ -437,7 +438,7 @@ func OpMissingVsEmpty(r *rng.R, e *Env) string {
 			ex = append(ex, in)
 		}
 	}
-	f := pre(t) + rng.Pick(r, ex)
+	f := path.Clean(pre(t) + rng.Pick(r, ex)) // the file a literal input names, however it is spelled
 	if c, ok := e.Spec.Files[f]; ok {
 		if c == "" {
 			delete(e.Spec.Files, f)
